@@ -403,3 +403,14 @@ ADDED2 = {
 }
 for _k, _v in ADDED2.items():
     PLAN[_k]["rule"] = PLAN[_k]["rule"] + "; " + _v
+
+# ---- round 8
+ADDED3 = {
+    "C08": "histories contain composite update_data calls whose last term is refused (P, q, A applied in order, b of the wrong length): the error must come back and data, KKT copy and engine copy must agree with the model; objective agreement with the fresh solver uses a slack derived from the documented residual tolerances",
+    "C14": "unit_initialization is called on garbage-filled buffers half of the time",
+    "C17": "half of the patterns sit behind one to three other cones (dense rows), the tree must carry the PSD cone's index",
+    "C19": "hugely negative finite right-hand sides (-1e21, -4e25, -1e300) in a slice of the round-trip problems",
+    "C20": "infinite right-hand sides also outside nonnegative cones (capped, not removed: the presolve line must not count them)",
+}
+for _k, _v in ADDED3.items():
+    PLAN[_k]["rule"] = PLAN[_k]["rule"] + "; " + _v
